@@ -450,7 +450,7 @@ def ts_type(t, nested=False):
     if k == "ref":
         return t["name"] + ("<" + ", ".join(ts_type(a) for a in t["args"]) + ">" if t["args"] else "")
     if k == "union":
-        r = " | ".join(ts_type(x, True) for x in t["types"])
+        r = " | ".join(ts_type(x, x["k"] != "union") for x in t["types"])     # a union written inside a union needs no parentheses
         return f"({r})" if nested else r
     if k == "inter":
         r = " & ".join(ts_type(x, True) for x in t["types"])
@@ -474,6 +474,123 @@ def render_ts(case):
     kind = case["tscase"]
     lines = ["import { defineComponent, type SetupContext } from 'vue'"]
     env, vals, exports = {}, {}, []
+    if kind == "call":
+        O = "{ props: ['u'], name: 'N' }"
+        shape, prov, decl = case["shape"], case["prov"], case["decl"]
+        setup = "(props: { a?: string }, ctx: SetupContext<(e: 'ev') => void>) => () => null"
+        second = {
+            "none": None, "empty": "{}", "props": "{ props: ['u'] }", "props_quoted": "{ 'props': ['u'] }",
+            "emits": "{ emits: ['x'] }", "emits_quoted": "{ \"emits\": ['x'] }", "name": "{ name: 'N' }", "name_quoted": "{ 'name': 'N' }",
+            "all": "{ name: 'N', props: ['u'], emits: ['x'] }", "inheritAttrs": "{ inheritAttrs: false }",
+            "spread_only": "{ ...o }", "spread_then_emits": "{ ...o, emits: ['x'] }", "emits_then_spread": "{ emits: ['x'], ...o }",
+            "spread_empty": "{ ...e }", "ident": "o", "ident_empty": "e", "call": "mk()",
+        }
+        callee = "defineComponent"
+        head = []
+        if prov == "vue_named":
+            head.append("import { defineComponent, type SetupContext } from 'vue'")
+        elif prov == "vue_alias":
+            head.append("import { defineComponent as dc, type SetupContext } from 'vue'")
+            callee = "dc"
+        elif prov == "vue_namespace":
+            head.append("import * as Vue from 'vue'")
+            head.append("import { type SetupContext } from 'vue'")
+            callee = "Vue.defineComponent"
+        elif prov == "local_function":
+            head.append("import { type SetupContext } from 'vue'")
+            head.append("function defineComponent(a: any, b?: any) { return $dc(a, b) }")
+        elif prov == "shadowed_param":
+            head.append("import { defineComponent, type SetupContext } from 'vue'")
+        elif prov == "other_module":
+            head.append("import { type SetupContext } from 'vue'")
+            head.append("import { defineComponent } from './x'")
+        elif prov == "alias_plus_other":
+            head.append("import { defineComponent as dc, type SetupContext } from 'vue'")
+            head.append("import { defineComponent } from './x'")
+            head.append("export const unrelated = dc(() => () => null)")
+        else:
+            raise ValueError("provenance " + prov)
+        lines = head + [f"const o: any = {O}", "const e: any = {}", "const mk = (): any => ({ emits: ['x'] })"]
+        if shape == "spread_args":
+            lines.append(f"const args: [any, any] = [{setup}, {{ props: ['u'] }}]")
+            call = f"{callee}(...args)"
+        elif shape == "nonfn_first":
+            call = f"{callee}({{ setup() {{ return () => null }}, props: ['u'] }})"
+        else:
+            sec = second[shape]
+            call = f"{callee}({setup}{', ' + sec if sec else ''})"
+        if prov == "shadowed_param":
+            # the callee is a parameter that shadows the vue import
+            if decl == "export_default":
+                decl = "export_const"
+            wrap_open, wrap_close = "export function mkC(defineComponent: any) {", "}"
+            body = {
+                "const": f"  const C = {call}\n  return C", "let": f"  let C = {call}\n  return C", "var": f"  var C = {call}\n  return C",
+                "export_const": f"  const C = {call}\n  return C", "assignment": f"  let C\n  C = {call}\n  return C",
+                "bare": f"  return {call}",
+            }[decl]
+            lines += [wrap_open, body, wrap_close, "export const C0 = mkC($dc)"]
+            exports = [{"name": "C0", "kind": "value"}]
+        else:
+            if decl in ("const", "let", "var"):
+                lines += [f"{decl} C = {call}", "export const C0 = C"]
+            elif decl == "export_const":
+                lines += [f"export const C = {call}", "export const C0 = C"]
+            elif decl == "export_default":
+                lines += [f"export default {call}"]
+            elif decl == "assignment":
+                lines += ["let C", f"C = {call}", "export const C0 = C"]
+            elif decl == "bare":
+                lines += [f"export const C0 = [{call}][0]"]
+            exports = [{"name": "default" if decl == "export_default" else "C0", "kind": "value"}]
+        return {"case": case["case"], "src": "\n".join(lines) + "\n", "lang": "tsx",
+                "opts": case.get("optsJson") or opts_json(case["opts"]), "want": [], "env": {}, "vals": {},
+                "exports": exports, "pragmas": [], "other_imports": {"./x": ["defineComponent"]}}
+    if kind == "defaults":
+        cx = Ctx()
+        def dkey(en):
+            kf = en["keyform"]
+            return en["key"] if kf == "ident" else "'" + en["key"] + "'" if kf == "str" else "['" + en["key"] + "']"
+        parts = []
+        for en in case["entries"]:
+            f, ex = en["form"], expr(en["e"], cx)
+            if f in ("lit", "expr"):
+                parts.append(f"{dkey(en)}: {ex}")
+            elif f == "shorthand":
+                parts.append(en["key"])
+            elif f == "getter":
+                parts.append(f"get {dkey(en)}() {{ return {ex} }}")
+            elif f == "method":
+                parts.append(f"{dkey(en)}() {{ return {ex} }}")
+            elif f == "async_method":
+                parts.append(f"async {dkey(en)}() {{ return {ex} }}")
+            elif f == "fn":
+                parts.append(f"{dkey(en)}: () => {ex}")
+            else:
+                raise ValueError("default form " + f)
+        form = case["form"]
+        if form == "static":
+            dflt = "{ " + ", ".join(parts) + " }"
+        elif form == "ident":
+            cx.env["dflts"] = {"k": "value", "rv": case["dyn"]}
+            dflt = "dflts"
+        elif form == "call":
+            cx.env["mkdflts"] = {"k": "fn", "rv": case["dyn"]}
+            dflt = "mkdflts()"
+        elif form == "spread":
+            cx.env["dflts"] = {"k": "value", "rv": case["dyn"]}
+            dflt = "{ ...dflts, " + ", ".join(parts) + " }"
+        elif form == "computed":
+            cx.env["kname"] = {"k": "value", "rv": case["dyn"]}
+            dflt = "{ [kname]: 'dk', " + ", ".join(parts) + " }"
+        else:
+            raise ValueError("defaults form " + form)
+        ptype = "{ a?: string, b?: number, cb?: () => void, 'q-k'?: string, z?: boolean }"
+        lines += cx.prelude
+        lines.append(f"export const C = defineComponent((props: {ptype} = {dflt}) => () => null)")
+        return {"case": case["case"], "src": "\n".join(lines) + "\n", "lang": "tsx",
+                "opts": case.get("optsJson") or opts_json(case["opts"]), "want": [], "env": cx.env, "vals": cx.vals,
+                "exports": [{"name": "C", "kind": "value"}], "pragmas": [], "other_imports": {}}
     place = case.get("place", "before")
     exported = place.startswith("exported")
     decls = [ts_decl(d, exported) for d in case.get("decls", [])]
